@@ -25,9 +25,16 @@ def message_line(rng, cname, mmsi):
 def make_messages(rng, mmsis, per=3):
     """pool[mmsi] = list of single-sentence messages of different types (different attribute sets)"""
     pool = {}
+    deck = []
     for k, m in enumerate(mmsis):
         pool[m] = []
-        names = rng.sample(MSG_CLASSES, per)
+        if len(mmsis) * per >= len(MSG_CLASSES):
+            # enough room: deal the message types out so that every one of them occurs in the pool
+            if len(deck) < per:
+                deck += rng.sample(MSG_CLASSES, len(MSG_CLASSES))
+            names, deck = deck[:per], deck[per:]
+        else:
+            names = rng.sample(MSG_CLASSES, per)
         if k == 0:
             # always: the two kinds of message that share one message type but carry different attributes
             names = ['MessageType24PartA', 'MessageType24PartB'] + names[2:]
